@@ -39,6 +39,16 @@ CLAIMED = {
             '<= 3 (thorough 8) fragments in the split lemma, <= 3 (thorough 6) slots in the step lemma, <= 3 fragments / 4 '
             'deliveries (thorough 4/6) in the scenario. Context expiry (wall-clock based cleanup) is part of C05, not of this claim.',
             'DESIGN.md §6 C06'),
+    'C18': ('The real serializeHeader/serializeDataHeader output is compared byte for byte (rope equality) with an '
+            'independently written RFC 6455 layout for every flag combination, opcode, mask bit, masking key and payload '
+            'length 0..2^63-1, and parsed back by the real readHeader/readDataHeader; unmasking is proven per byte; '
+            'k masked client frames cut at symbolic positions are fed through the real WebSocketTemporaryHandler and '
+            'proven to be delivered once each, in order, unmasked, without exceptions.',
+            'Trusted: sx engine, struct model. Bounds: header codec unbounded in the length value; masking payload <= 8 '
+            '(thorough 12) symbolic bytes; segmentation k <= 2 frames, payload <= 2 bytes, <= 1 cut (thorough k <= 3, <= 3 bytes, '
+            '<= 2 cuts) - payload content is irrelevant to framing, only boundaries matter. Continuation frames are not '
+            'implemented by the library and not in the statement.',
+            'DESIGN.md §6 C18'),
 }
 
 NOT_YET = 'check not built yet in this round (planned: see DESIGN.md §6); not claimed'
